@@ -605,6 +605,7 @@ def run_check(mod, tier, seed):
     prop = mod.ID
     t0 = time.time()
     work = Work(prop)
+    shutil.rmtree(os.path.join(ROOT, 'replay', prop), ignore_errors=True)     # replay artefacts always describe the latest run only
     rc = 2
     try:
         tus, cfgs = mod.generate(seed, tier)
